@@ -221,11 +221,28 @@ def tlc_coverage(out):
     return cov
 
 
+def _closure(module, seen=None):
+    """local modules reachable through EXTENDS / INSTANCE"""
+    seen = seen if seen is not None else []
+    name = module[:-4] if module.endswith(".tla") else module
+    p = os.path.join(SPEC, name + ".tla")
+    if name in seen or not os.path.exists(p):
+        return seen
+    seen.append(name)
+    txt = open(p).read()
+    for m in re.findall(r"^\s*EXTENDS\s+(.*)$", txt, flags=re.M):
+        for dep in re.split(r"[,\s]+", m.strip()):
+            if dep:
+                _closure(dep, seen)
+    for dep in re.findall(r"INSTANCE\s+(\w+)", txt):
+        _closure(dep, seen)
+    return seen
+
+
 def _spec_hash(module, cfg, extra):
     h = hashlib.sha1()
-    for f in sorted(os.listdir(SPEC)):
-        if f.endswith(".tla"):
-            h.update(open(os.path.join(SPEC, f), "rb").read())
+    for name in sorted(_closure(module)):
+        h.update(open(os.path.join(SPEC, name + ".tla"), "rb").read())
     h.update(open(os.path.join(SPEC, cfg), "rb").read())
     h.update(repr((module, cfg, extra)).encode())
     return h.hexdigest()[:20]
